@@ -106,7 +106,7 @@ class PytorchEngine(BackendEngine):
 
         for i, p in enumerate(self.predictor_model.parameters()):
             # Normalize dW_LA
-            unit_dW_LA = dW_LA[i] / (torch.norm(dW_LA[i]) + torch.finfo(float).tiny)
+            unit_dW_LA = dW_LA[i] / (torch.norm(dW_LA[i]) + torch.finfo(torch.float32).tiny)
             # Project
             proj = torch.sum(unit_dW_LA * dW_LP[i])
             # Calculate dW
